@@ -158,6 +158,7 @@ var chkBig = pbt.Check[Case]{Name: "record-roundtrip-pending-limit", Eval: eval,
 var chkHeavy = pbt.Check[Case]{Name: "record-roundtrip-consumed-plus-pending", Eval: eval, Gen: genWith(gen.Options{Unbuffered: true, HeavyWriter: true}, "")}
 var chkMany = pbt.Check[Case]{Name: "record-roundtrip-entry-limit", Eval: eval, Gen: genWith(gen.Options{Unbuffered: true, ManyEntries: true}, "")}
 var chkManyBuf = pbt.Check[Case]{Name: "record-roundtrip-entry-limit-buffered", Eval: eval, Gen: genWith(gen.Options{ManyEntries: true}, "")}
+var chkArr = pbt.Check[Case]{Name: "record-roundtrip-out-of-line-arrays", Eval: eval, Gen: genWith(gen.Options{Unbuffered: true, Arrays: true, MaxForeign: 3}, "")}
 var chkLong = pbt.Check[Case]{Name: "record-roundtrip-long-text", Eval: eval, Gen: genWith(gen.Options{Unbuffered: true, LongText: true, MaxForeign: 2}, "")}
 var chkSub = pbt.Check[Case]{Name: "record-roundtrip-ext-subsec", Eval: eval, Gen: genWith(gen.Options{Unbuffered: true, ExtSubSecDigits: true}, "subsec-digits")}
 
@@ -169,6 +170,7 @@ func init() {
 	pbt.Register(chkMany)
 	pbt.Register(chkManyBuf)
 	pbt.Register(chkLong)
+	pbt.Register(chkArr)
 }
 
 func TestProp(t *testing.T) {
@@ -221,6 +223,9 @@ func TestProp(t *testing.T) {
 		return
 	}
 	if !pbt.Run(t, rec, chkManyBuf, rec.Env.Pick(300, 6000), 6) {
+		return
+	}
+	if !pbt.Run(t, rec, chkArr, rec.Env.Pick(400, 8000), 8) {
 		return
 	}
 	if !pbt.Run(t, rec, chkLong, rec.Env.Pick(300, 6000), 7) {
